@@ -291,7 +291,7 @@ class CP1Disk(CP1Object):
 def projective_to_spherical(points, column_vectors=False):
     ppoints = np.array(points)
     if column_vectors:
-        ppoints = spoints.swapaxes(-1, -2)
+        ppoints = ppoints.swapaxes(-1, -2)
 
     z0 = ppoints[..., 0]
     z1 = ppoints[..., 1]
